@@ -378,3 +378,130 @@ func init() {
 			return failedStartScenario(failedStartConfigs()[i], b)
 		}})
 }
+
+// ---------------------------------------------------------------------------------------------
+// C01 on the rolling-file logger with a separate .wf file, for every shape of the logger's own range
+// (lower bound below / at / above WARN, bounded and unbounded), synchronous and asynchronous: an event
+// is in exactly one file, once, iff the logger's range contains its level - the .wf file for WARN and
+// above, the normal file below - and in no file otherwise.
+// ---------------------------------------------------------------------------------------------
+
+var sepLevels = []string{"", "TRACE", "INFO", "WARN", "ERROR", "FATAL", "DEBUG~ERROR", "WARN~PANIC", "ERROR~FATAL", "INFO~WARN", "TRACE~INFO"}
+
+var sepEvents = []struct {
+	name string
+	code int
+	emit func(ctx context.Context, id string)
+}{
+	{"TRACE", 100, func(ctx context.Context, id string) { log.Tracef(ctx, c03Tags[0], "%s", id) }},
+	{"DEBUG", 200, func(ctx context.Context, id string) { log.Debugf(ctx, c03Tags[0], "%s", id) }},
+	{"INFO", 300, func(ctx context.Context, id string) { log.Infof(ctx, c03Tags[0], "%s", id) }},
+	{"WARN", 400, func(ctx context.Context, id string) { log.Warnf(ctx, c03Tags[1], "%s", id) }},
+	{"ERROR", 500, func(ctx context.Context, id string) { log.Errorf(ctx, c03Tags[1], "%s", id) }},
+	{"PANIC", 600, func(ctx context.Context, id string) { log.Panicf(ctx, c03Tags[2], "%s", id) }},
+	{"FATAL", 700, func(ctx context.Context, id string) { log.Fatalf(ctx, c03Tags[2], "%s", id) }},
+}
+
+var sepCodes = map[string]int{"": 0, "TRACE": 100, "DEBUG": 200, "INFO": 300, "WARN": 400, "ERROR": 500, "PANIC": 600, "FATAL": 700, "MAX": 999}
+
+func sepScenario(level string, separate, async bool, b zzvrt.Bounds) *zzvrt.Scenario {
+	var rerr string
+	done := false
+	conf := map[string]string{
+		"appender.unused.type": "Console",
+		"logger.root.type":     "RollingFile", "logger.root.fileDir": "/logs", "logger.root.fileName": "app.log",
+		"logger.root.rotation": "h", "logger.root.separate": fmt.Sprint(separate), "logger.root.async": fmt.Sprint(async), "logger.root.maxAge": "24",
+	}
+	if level != "" {
+		conf["logger.root.level"] = level
+	}
+	if async {
+		conf["logger.root.bufferSize"], conf["logger.root.bufferFullPolicy"] = "100", "Block"
+	}
+	lo, hi := level, "MAX"
+	if i := strings.Index(level, "~"); i >= 0 {
+		lo, hi = level[:i], level[i+1:]
+	}
+	min, max := sepCodes[lo], sepCodes[hi]
+	return &zzvrt.Scenario{
+		Before: func() { resetAll(); rerr, done = "", false },
+		Opts:   zzvrt.RunOpts{Bounds: b},
+		Body: func() {
+			x := zzvrt.Cur()
+			zzvrt.Atomic(func() {
+				log.TimeNow = func(context.Context) time.Time { return fixedT }
+				log.Stdout = &slowSink{}
+				x.FS.MkdirAll("/logs")
+				if err := log.Refresh(conf); err != nil {
+					rerr = err.Error()
+				}
+			})
+			if rerr != "" {
+				return
+			}
+			for _, ev := range sepEvents {
+				ev.emit(context.Background(), "sep-"+ev.name+"-id")
+			}
+			log.Destroy()
+			done = true
+		},
+		Check: func(x *zzvrt.Exec) (string, []zzvrt.Violation) {
+			key := fmt.Sprintf("RollingFile level=%q separate=%v async=%v", level, separate, async)
+			if x.Outcome != "" {
+				return x.Outcome, []zzvrt.Violation{{Clause: "no-" + strings.SplitN(x.Outcome, ":", 2)[0], Key: key, Detail: x.Outcome + " " + firstLines(x.Stack, 10)}}
+			}
+			if rerr != "" {
+				return rerr, []zzvrt.Violation{{Clause: "kind-not-instantiable", Key: key, Detail: rerr}}
+			}
+			var v []zzvrt.Violation
+			var normal, wf string
+			for _, n := range x.FS.List("/logs") {
+				if strings.HasPrefix(n, "app.log.wf.") {
+					wf += string(x.FS.Nodes["/logs/"+n].Data)
+				} else {
+					normal += string(x.FS.Nodes["/logs/"+n].Data)
+				}
+			}
+			for _, ev := range sepEvents {
+				id := "sep-" + ev.name + "-id"
+				wantN, wantW := 0, 0
+				if ev.code >= min && ev.code < max {
+					if separate && ev.code >= 400 {
+						wantW = 1
+					} else {
+						wantN = 1
+					}
+				}
+				if gn, gw := strings.Count(normal, id), strings.Count(wf, id); gn != wantN || gw != wantW {
+					v = append(v, zzvrt.Violation{Clause: "rolling-logger-routing", Key: key,
+						Detail: fmt.Sprintf("%s event: %d time(s) in the normal file, %d time(s) in the .wf file; want %d / %d (logger range [%d,%d))", ev.name, gn, gw, wantN, wantW, min, max)})
+				}
+			}
+			return fmt.Sprintf("%v|%q|%q", done, normal, wf), v
+		},
+	}
+}
+
+func init() {
+	type sc struct {
+		level           string
+		separate, async bool
+	}
+	var all []sc
+	for _, l := range sepLevels {
+		for _, sep := range []bool{true, false} {
+			for _, as := range []bool{false, true} {
+				all = append(all, sc{l, sep, as})
+			}
+		}
+	}
+	registerFamily(Fam{Prop: "C01", Name: "c01/rolling-logger-levels", Tiers: "qt",
+		Count: func(string) int { return len(all) },
+		Make: func(tier string, i int) *zzvrt.Scenario {
+			b := zzvrt.Bounds{Preempt: 1, Horizon: 20000}
+			if tier == "thorough" {
+				b.Preempt = 2
+			}
+			return sepScenario(all[i].level, all[i].separate, all[i].async, b)
+		}})
+}
